@@ -313,7 +313,7 @@ class BasicContiguousElement
             {
                 destruct();
                 memory_ = other.memory_;
-                store_and_construct_reference_inplace(other.reference_, other.memory_.size());
+                store_and_construct_reference_inplace(other.reference_, other.reference_.size_in_bytes());
             }
         }
     }
